@@ -14,7 +14,7 @@ macro "c11_unfold" : tactic => `(tactic|
     isMinOf2, isMaxOf2, isMinOf3, isMaxOf3, isMinOf4, isMaxOf4, isClampOf,
     floatBitsToInt, floatBitsToUint, intBitsToFloat, uintBitsToFloat,
     fadd, fsub, fmul2, fdiv2, roundPack, clz27, f2i, f2iDefined, f2u, f2uDefined,
-    fract, fmod2IsZero, roundEven, iround, uround, iroundOld, wrapClamp, wrapRepeat, mirrorClamp, mod2, mirrorRepeat,
+    fract, fmod2IsZero, modfInt, modfFrac, roundEven, iround, uround, iroundOld, wrapClamp, wrapRepeat, mirrorClamp, mod2, mirrorRepeat,
     truncS, floorS, ceilS, roundS, rintS, isInt, isEvenInt, fix24, fracMask,
     lt, le, feq, gt, ge, same, isNaN, isInf, isFinite, isZero, signBit, neg, key, mag,
     expo, sig, eff, fZero, fOne, fNegOne, fHalf, fTwo, fNaN] at *)
@@ -26,13 +26,13 @@ macro "c11d_unfold" : tactic => `(tactic|
     D.vfmin3, D.vfmin4, D.vfmax3, D.vfmax4,
     D.isMinOf2, D.isMaxOf2, D.isMinOf3, D.isMaxOf3, D.isMinOf4, D.isMaxOf4, D.isClampOf,
     D.fadd, D.fsub, D.fmul2, D.fdiv2, D.roundPack, D.clz56, D.f2i, D.f2iDefined, D.f2u, D.f2uDefined,
-    D.fract, D.fmod2IsZero, D.roundEven, D.iround, D.uround, D.wrapClamp, D.wrapRepeat, D.mirrorClamp, D.mod2, D.mirrorRepeat,
+    D.fract, D.fmod2IsZero, D.modfInt, D.modfFrac, D.roundEven, D.iround, D.uround, D.wrapClamp, D.wrapRepeat, D.mirrorClamp, D.mod2, D.mirrorRepeat,
     D.truncS, D.floorS, D.ceilS, D.roundS, D.rintS, D.isInt, D.isEvenInt, D.fracMask,
     D.lt, D.le, D.feq, D.gt, D.ge, D.same, D.isNaN, D.isInf, D.isFinite, D.isZero, D.signBit, D.neg, D.key, D.mag,
     D.expo, D.sig, D.eff, D.fZero, D.fOne, D.fNegOne, D.fHalf, D.fTwo, D.fNaN] at *)
 
-macro "c11d_bv" : tactic => `(tactic| (c11d_unfold <;> bv_decide))
+macro "c11d_bv" : tactic => `(tactic| (c11d_unfold <;> bv_decide (config := { timeout := 900 })))
 
-macro "c11_bv" : tactic => `(tactic| (c11_unfold <;> bv_decide))
+macro "c11_bv" : tactic => `(tactic| (c11_unfold <;> bv_decide (config := { timeout := 900 })))
 
 end GlmVerif.C11
